@@ -79,7 +79,7 @@ def generate(tier, rng):
                         x = rng.choice([8, 16, 24, 40, 64, 96])
                         npos = x
                     else:
-                        x = rng.choice([8, 16, -8, 24])
+                        x = rng.choice([8, 16, -8, 24, 0, 0])     # (0: a seek by nothing still supersedes what was written before it)
                         npos = pos + x
                     if not (0 <= npos <= 180):
                         continue
